@@ -71,66 +71,23 @@ Proof. exists 0. split; [split; [lia|reflexivity]|]. split; [exact width0_zero_f
 Theorem from_u32_width0_refuted : exists n, 0 <= n < 2 ^ 32 /\ u32s_fits 0 n /\ u32s_from_u32 0 n = None.
 Proof. exists 0. split; [split; [lia|reflexivity]|]. split; [exact width0_zero_fits|reflexivity]. Qed.
 
-(* ======================================================================================== [CURRENT] begin *)
-Definition BOUND3_NOW : Z := 18446744073709551615 * 4294967295.    (* u64::MAX * u32::MAX = 2^96 - 2^64 - 2^32 + 1 *)
 
-(* the N = 3 arm of the pinned tree *)
-Lemma tryfrom_u128_guard3_now v : tryfrom_u128_rejects 3 v = (BOUND3_NOW <? v).
+Lemma tryfrom_u128_guard3_fixed v : 0 <= v < 2 ^ 128 ->
+  tryfrom_u128_rejects 3 v = true <-> ~ u32s_fits 3 v.
 Proof.
-  unfold tryfrom_u128_rejects. cbn [Z.eqb Pos.eqb andb]. rewrite Z.gtb_ltb.
-  assert (E : wmul 128 18446744073709551615 4294967295 = BOUND3_NOW) by (vm_compute; reflexivity).
-  rewrite E. destruct (BOUND3_NOW <? v); reflexivity.
+  intros Hv. rewrite fits_T. unfold tryfrom_u128_rejects. cbn [Z.eqb Pos.eqb andb]. close_consts v. norm_guard. split_cmp.
 Qed.
 
-(* refutation: 2^96 - 1 fits three limbs and is rejected *)
-Theorem try_from_u128_refuted_now :
-  exists v, 0 <= v < 2 ^ 128 /\ u32s_fits 3 v /\ u32s_try_from_u128 3 v = Rej.
+Theorem tryfrom_u128_guard_exact N v : N <> 0%nat -> 0 <= v < 2 ^ 128 ->
+  tryfrom_u128_rejects (Z.of_nat N) v = true <-> ~ u32s_fits N v.
 Proof.
-  exists (2 ^ 96 - 1). split; [split; [vm_compute; discriminate|reflexivity]|].
-  split; [split; [vm_compute; discriminate|reflexivity]|reflexivity].
+  intros HN Hv. destruct (Nat.eq_dec N 3) as [->|Hn3]; [|apply tryfrom_u128_guard_exact_not3; auto].
+  change (Z.of_nat 3) with 3. apply tryfrom_u128_guard3_fixed. exact Hv.
 Qed.
 
-(* the exact extent of the defect: every v with u64::MAX * u32::MAX < v < 2^96 fits and is rejected ... *)
-Theorem try_from_u128_gap_now v : BOUND3_NOW < v < 2 ^ 96 ->
-  u32s_fits 3 v /\ u32s_try_from_u128 3 v = Rej.
-Proof.
-  intros Hv. unfold BOUND3_NOW in Hv. split.
-  - rewrite fits_T. norm_guard. lia.
-  - unfold u32s_try_from_u128. change (Z.of_nat 3) with 3. rewrite tryfrom_u128_guard3_now.
-    destruct (Z.ltb_spec BOUND3_NOW v) as [_|H]; [reflexivity|]. unfold BOUND3_NOW in H. lia.
-Qed.
-
-(* ... and outside that gap (and for every other N >= 1) the conversion is exact *)
-Theorem try_from_u128_spec_now N v : N <> 0%nat -> 0 <= v < 2 ^ 128 ->
-  (N = 3%nat -> v <= BOUND3_NOW \/ 2 ^ 96 <= v) ->
+Theorem try_from_u128_spec N v : N <> 0%nat -> 0 <= v < 2 ^ 128 ->
   (u32s_fits N v -> exists r, u32s_try_from_u128 N v = Done r /\ u32s_wf N r /\ u32s_value r = v) /\
   (~ u32s_fits N v -> u32s_try_from_u128 N v = Rej).
 Proof.
-  intros HN Hv H3. apply try_from_u128_of_guard; [lia|].
-  destruct (Nat.eq_dec N 3) as [->|Hn3]; [|apply tryfrom_u128_guard_exact_not3; auto].
-  specialize (H3 eq_refl). change (Z.of_nat 3) with 3. rewrite tryfrom_u128_guard3_now, fits_T.
-  unfold BOUND3_NOW in *. norm_guard. split_cmp.
+  intros HN Hv. apply try_from_u128_of_guard; [lia|]. apply tryfrom_u128_guard_exact; auto.
 Qed.
-(* ======================================================================================== [CURRENT] end *)
-
-(* ======================================================================================== [FIXED] begin
-  Lemma tryfrom_u128_guard3_fixed v : 0 <= v < 2 ^ 128 ->
-    tryfrom_u128_rejects 3 v = true <-> ~ u32s_fits 3 v.
-  Proof.
-    intros Hv. rewrite fits_T. unfold tryfrom_u128_rejects. cbn [Z.eqb Pos.eqb andb]. close_consts v. norm_guard. split_cmp.
-  Qed.
-
-  Theorem tryfrom_u128_guard_exact N v : N <> 0%nat -> 0 <= v < 2 ^ 128 ->
-    tryfrom_u128_rejects (Z.of_nat N) v = true <-> ~ u32s_fits N v.
-  Proof.
-    intros HN Hv. destruct (Nat.eq_dec N 3) as [->|Hn3]; [|apply tryfrom_u128_guard_exact_not3; auto].
-    change (Z.of_nat 3) with 3. apply tryfrom_u128_guard3_fixed. exact Hv.
-  Qed.
-
-  Theorem try_from_u128_spec N v : N <> 0%nat -> 0 <= v < 2 ^ 128 ->
-    (u32s_fits N v -> exists r, u32s_try_from_u128 N v = Done r /\ u32s_wf N r /\ u32s_value r = v) /\
-    (~ u32s_fits N v -> u32s_try_from_u128 N v = Rej).
-  Proof.
-    intros HN Hv. apply try_from_u128_of_guard; [lia|]. apply tryfrom_u128_guard_exact; auto.
-  Qed.
-   ======================================================================================== [FIXED] end *)
